@@ -498,7 +498,7 @@ def _table_reader_paths(pm, rel, reader):
     tree = next((t for m, (r, t, _) in pm.modules.items() if r == rel), None)
     dparam = reader.args.args[0].arg if reader.args.args else "input_dict"
     loop = next((n for n in ast.walk(reader) if isinstance(n, ast.For) and isinstance(n.iter, ast.Name)
-                 and isinstance(n.target, ast.Tuple) and len(n.target.elts) == 2), None)
+                 and isinstance(n.target, ast.Tuple) and len(n.target.elts) >= 2), None)
     if loop is None or tree is None:
         return None
     table = next((n.value for n in tree.body if isinstance(n, ast.Assign) and len(n.targets) == 1
@@ -559,6 +559,73 @@ def _table_reader_paths(pm, rel, reader):
                 return None
             return unroll_all_any(substitute(r, m))
         return None
+    # rows of any width — (predicate, value reader, builder, …) — used by a loop body of the form
+    # `if <predicate>(d): <statements calling the other columns>; return …`: each row is read as the body with its
+    # columns substituted, lambdas applied and single-return functions of the module replaced by what they return
+    names = [x.id for x in loop.target.elts if isinstance(x, ast.Name)]
+    first = loop.body[0] if loop.body else None
+    generic = (len(names) == len(loop.target.elts) and len(names) >= 2 and len(loop.body) == 1 and isinstance(first, ast.If)
+               and not first.orelse and isinstance(first.test, ast.Call) and isinstance(first.test.func, ast.Name)
+               and first.test.func.id == names[0] and len(first.test.args) == 1
+               and not all(isinstance(e, ast.Tuple) and len(e.elts) == 2 and isinstance(e.elts[1], ast.Name) for e in table.elts))
+    if generic:
+        def apply_known(stmt):
+            class A(ast.NodeTransformer):
+                def visit_Call(self, node):
+                    self.generic_visit(node)
+                    f_ = node.func
+                    if isinstance(f_, ast.Lambda) and not node.keywords and len(node.args) == len(f_.args.args):
+                        return substitute(f_.body, {p_.arg: a for p_, a in zip(f_.args.args, node.args)})
+                    if isinstance(f_, ast.Name):
+                        h_ = finder(f_.id)
+                        r_ = single_return(h_) if h_ is not None else None
+                        if r_ is not None and not any(isinstance(a, ast.Starred) for a in node.args) \
+                                and all(k.arg is not None for k in node.keywords):
+                            ps_ = [p_.arg for p_ in h_.args.args]
+                            m_ = {p_: a for p_, a in zip(ps_, node.args)}
+                            m_.update({k.arg: k.value for k in node.keywords if k.arg in ps_})
+                            if set(m_) == set(ps_):
+                                return substitute(r_, m_)
+                    return node
+            out = stmt
+            for _ in range(3):
+                out = A().visit(out)
+            return out
+        entries = []
+        d = ast.Name(id=dparam, ctx=ast.Load())
+        for e in table.elts:
+            if not (isinstance(e, ast.Tuple) and len(e.elts) == len(names)):
+                return None
+            test = pred_test(e.elts[0], first.test.args[0])
+            if test is None:
+                return None
+            m = {n_: c_ for n_, c_ in zip(names[1:], e.elts[1:])}
+            body = [substitute_stmt(b, m) for b in first.body]
+            # `kw = {"label": …, "source": …}` … `f(x, **kw)` reads as f(x, label=…, source=…)
+            lits = {b.targets[0].id: b.value for b in body if isinstance(b, ast.Assign) and len(b.targets) == 1
+                    and isinstance(b.targets[0], ast.Name) and isinstance(b.value, ast.Dict)
+                    and all(isinstance(k, ast.Constant) and isinstance(k.value, str) for k in b.value.keys)}
+            for b in body:
+                for c_ in [x for x in ast.walk(b) if isinstance(x, ast.Call)]:
+                    kws = []
+                    for k in c_.keywords:
+                        if k.arg is None and isinstance(k.value, ast.Name) and k.value.id in lits:
+                            kws += [ast.keyword(arg=kk.value, value=vv) for kk, vv in zip(lits[k.value.id].keys, lits[k.value.id].values)]
+                        else:
+                            kws.append(k)
+                    c_.keywords = kws
+            body = [apply_known(b) for b in body]
+            for b in body:
+                for x in ast.walk(b):
+                    for ch in ast.iter_child_nodes(x):
+                        ch._parent = x
+            entries.append((test, body))
+        paths = []
+        for i, (test, body) in enumerate(entries):
+            conds = [(t, False) for t, _ in entries[:i]] + [(test, True)]
+            paths.append(Path(conds, body, "return"))
+        paths.append(Path([(t, False) for t, _ in entries], [], "return"))
+        return paths
     entries = []
     for e in table.elts:
         if not (isinstance(e, ast.Tuple) and len(e.elts) == 2 and isinstance(e.elts[1], ast.Name)):
@@ -1227,6 +1294,10 @@ def r_json_dispatch(E):
         built = {c.func.id for c in ast.walk(mod_tree) if isinstance(c, ast.Call) and isinstance(c.func, ast.Name)
                  and c.func.id in explainable}
     if len(built) < 3:
+        # … or a table whose rows name the class to build: (predicate, value reader, ExplainableQuantity)
+        built |= {x.id for x in ast.walk(mod_tree) if isinstance(x, ast.Name) and isinstance(x.ctx, ast.Load)
+                  and x.id in explainable and isinstance(getattr(x, "_parent", None), (ast.Tuple, ast.List))}
+    if len(built) < 3:
         raise AnalysisError(f"R-JSON-DISPATCH: the loader constructs only {sorted(built)}")
     # classes an original model can hold but a reloaded one cannot: proper subclasses of a rebuilt class, never rebuilt
     lost = {cn for cn in explainable - built if any(b in built for b in pm.mro(cn)[1:])}
@@ -1366,7 +1437,22 @@ def r_json_defaults(E):
         while x is not None and not isinstance(x, ast.FunctionDef):
             x = getattr(x, "_parent", None)
         return x
-    for c in [n for n in ast.walk(tree) if isinstance(n, ast.Call) and isinstance(n.func, ast.Name) and n.func.id in explainable]:
+    sites = [n for n in ast.walk(tree) if isinstance(n, ast.Call) and isinstance(n.func, ast.Name) and n.func.id in explainable]
+    # a reader written as a table whose rows name the constructor: the calls are those of the rows' bodies, columns
+    # substituted (`build(value, **kw)` with build = SourceObject, kw = {"label": …, "source": …})
+    tp = _table_reader_paths(pm, rel, reader)
+    if tp is not None:
+        seen_txt = {norm(c) for c in sites}
+        for pi_, p_ in enumerate(tp):
+            for st in p_.stmts:
+                for n in ast.walk(st):
+                    if isinstance(n, ast.Call) and isinstance(n.func, ast.Name) and n.func.id in explainable \
+                            and norm(n) not in seen_txt and (pi_, norm(n)) not in seen_txt:
+                        seen_txt.add((pi_, norm(n)))      # (one site per row, even when two rows read the same)
+                        if not hasattr(n, "lineno"):
+                            n.lineno = reader.lineno
+                        sites.append(n)
+    for c in sites:
         owner, ini = pm.find_method(c.func.id, "__init__")
         if ini is None:
             continue
